@@ -411,11 +411,23 @@ pub fn poolchange_case(p: &Profile) -> BoxedStrategy<Case> {
         1 => (0u8..=3, prop::bool::ANY).prop_map(|(n, atomic)| vec![RootAct::SetPoolPublic { n, atomic }]),
         2 => (0u8..=3, 0u8..=3, prop::bool::ANY).prop_map(|(a, b, atomic)| vec![RootAct::SetPoolPublic { n: a, atomic }, RootAct::SetPoolPublic { n: b, atomic: true }]),
     ];
-    (cfg_strategy(&p), phase_strategy(&p), acts, phase_strategy(&p), sched_strategy(p.sched_bytes), prop::bool::ANY, prop::bool::ANY).prop_map(|(mut cfg, ph0, acts, mut ph1, sched, two, dwq)| {
+    // callers for a despawn that runs concurrently with them: plain operations only, so that no job of a thread that is being
+    // joined can wait for work that needs a pool thread (a resource deadlock of the program, not of the library)
+    let mut simple = p.clone();
+    simple.opw = OpW { desync: 14, sync: 4, trysync: 1, yield_: 3, futdesync: 0, futsync: 0, after: 0, await_: 0, syncwait: 0, pollonce: 0, dropfut: 0, detach: 0, release: 0, opengate: 0, rewake: 0, waitfor: 0, awaitinline: 0, awaitjoin: 0, ..OpW::default() };
+    simple.stepw = StepW { awaitgate: 0, opengate: 0, blockongate: 0, nested_desync: 0, nested_sync: 0, nested_futdesync: 0, awaitfutsync: 0, awaitfutdesync: 0, release: 0, ..StepW::default() };
+    simple.lifecycle_pct = 0;
+    let simple_callers = vec(vec(op_strategy(&simple), 1..=4), 2..=4);
+    (cfg_strategy(&p), phase_strategy(&p), acts, phase_strategy(&p), sched_strategy(p.sched_bytes), prop::bool::ANY, prop::bool::ANY, (prop::bool::weighted(0.35), simple_callers)).prop_map(|(mut cfg, ph0, acts, mut ph1, sched, two, dwq, (late, simple_callers))| {
         cfg.root_holds = true;
         cfg.despawn_without_quiescence = dwq;
         cfg.level = Level::Desync;
         if two {
+            if late && acts.iter().any(|a| matches!(a, RootAct::Despawn)) && !acts.iter().any(|a| matches!(a, RootAct::SpawnThread)) {
+                ph1.root_late = true;
+                ph1.callers = simple_callers;
+                ph1.wakers = vec![];
+            }
             ph1.root = acts;
             Case { cfg, phases: vec![ph0, ph1], sched }
         } else {
@@ -658,6 +670,7 @@ pub fn labels(id: &str, case: &Case, out: &Outcome) -> Vec<String> {
     flag(s.inline_polls > 0, "inline-task-polled-from-a-waker");
     flag(s.stream_self_wakes > 0, "stream-woke-itself-during-poll_next");
     flag(s.chained_closes > 0, "stream-ended-by-drop-of-another-pipe");
+    flag(s.concurrent_despawns > 0, "despawn-concurrent-with-scheduling-calls");
     flag(s.stream_drop_wakes > 0, "stream-woke-its-waker-from-its-destructor");
     flag(s.consumer_probe_pending > 0, "consumer-polled-with-two-wakers");
     flag(s.unwinding_last_owner_drops > 0, "last-owner-dropped-while-unwinding");
